@@ -67,6 +67,7 @@ func (m *Mutex) Unlock() {
 type RWMutex struct {
 	real     sync.RWMutex
 	w        bool
+	wWait    int // Lock calls that are blocked: as in Go's RWMutex, a pending writer keeps NEW readers out
 	r        int
 	vcW, vcR []int
 }
@@ -88,7 +89,9 @@ func (m *RWMutex) Lock() {
 		m.real.Lock()
 		return
 	}
+	m.wWait++
 	vsched.Block("RWMutex.Lock", func() bool { return !m.w && m.r == 0 })
+	m.wWait--
 	m.w = true
 	vsched.Cur().Join(m.vcW)
 	vsched.Cur().Join(m.vcR)
@@ -108,7 +111,7 @@ func (m *RWMutex) RLock() {
 		m.real.RLock()
 		return
 	}
-	vsched.Block("RWMutex.RLock", func() bool { return !m.w })
+	vsched.Block("RWMutex.RLock", func() bool { return !m.w && m.wWait == 0 })
 	m.r++
 	vsched.Cur().Join(m.vcW)
 }
